@@ -126,6 +126,17 @@ def run_cases(mod, descs, workdir, jobs=16):
             rec["dis"] = [("model-failed", -1, None, None, float("inf"))]
         else:
             rec["dis"] = gtlib.compare(rec["obs"], o)
+    # repair-aware models: where the faithful model disagrees, a registered repaired variant may agree
+    if hasattr(mod, "alt_terms"):
+        cand = [(rec, t) for rec in recs if rec["dis"] and rec["obs"] is not None for t in mod.alt_terms(rec["desc"])]
+        if cand:
+            aouts, aerr, _ = gtlib.run_model([t for _, t in cand], os.path.join(workdir, "alt"),
+                                             extra_imports=getattr(mod, "IMPORTS", ""), shard=getattr(mod, "SHARD", 20), jobs=jobs)
+            for (rec, _), o in zip(cand, aouts):
+                if o is not None and rec["dis"] and not gtlib.compare(rec["obs"], o):
+                    rec["dis"] = []
+                    rec["model"] = o
+                    rec["variant"] = "repaired"
     return recs, errors, t_impl, t_coq
 
 
